@@ -79,6 +79,24 @@ PROPS = {
         "trusted_base": TB_COMMON + ["f64 product LOG2_10*k in highest_bit_lessthan_scaled: scalar condition 2^pre(k) <= 10^k (PreOK)"],
         "assumptions": ASSUME_COMMON + ["operands have fewer than 2^63 digits"],
     },
+    "C03": {
+        "rule": "pairs (a, b): b = a with 0..2000 extra trailing zeros (scale moved along), b = normalized(a) (negative scale versus written zeros), zeros with any scale "
+                "(|scale| <= 10^5), sign flips, +1 neighbours, same digits at a shifted scale; for each pair: a == b, equality of the exact byte stream written to a recording "
+                "Hasher, and equality under DefaultHasher (SipHash), a write-chunk-sensitive hasher and FNV-1a; plus the recorded bytes of single values compared with the model's "
+                "string. Property checked: a == b implies all four agree. Non-trivial = not both zero.",
+        "trusted_base": TB_COMMON + ["str::hash writes the UTF-8 bytes then 0xff (observed through the recording hasher on every run)"],
+        "assumptions": ASSUME_COMMON + ["|scale| <= 10^5 (the hash materialises zeros)"],
+    },
+    "C08": {
+        "rule": "pairs (a, b): divisors 2^i 5^j (i<=60, j<=30: terminating quotients), a = b*q + r with q of P-3..P+3 digits in all shapes (nines, zeros, ties) and r in {0, 1, |b|-1, |b|/2, |b|/2+1} "
+                "(quotients that are exact / repeating / half-way at the P-th digit), |a| << |b|, |a| >> |b| (quotient longer than P digits), equal unscaled integers with different scales, "
+                "unit divisors written 1.000, zero numerators; through the four ownership forms; every primitive integer width (value, reference, /=, /= &) on either side, f32/f64 divisors and "
+                "numerators incl. +-1, +-2, zero, subnormal, inf, NaN; ZERO divisors through every overload (decimal zero of any scale, integer zero of every width, float numerators); "
+                "impl_division through the hook at precisions 1..150. Judged by the relational spec (exact when the quotient has <= P digits, else >= P digits within half ulp, ties away, sign) "
+                "and by value equality with the model.",
+        "trusted_base": TB_COMMON + ["exact float->decimal conversion is taken from the library itself here (verified separately under C14)"],
+        "assumptions": ASSUME_COMMON + ["a numerator equal to one (inverse(), C12) is excluded except for zero divisors"],
+    },
 }
 
 
